@@ -147,6 +147,11 @@ pub enum Surgery {
     /// nesting is within the library's limit while the number of nested applications is
     /// `records ^ depth`.
     InstallContextFanout { glyph: u16, records: u16, depth: u8, variant: u64 },
+    /// GSUB: the FeatureRecord `feature_index` is retagged `rvrn` (required variation alternates),
+    /// which the shaper applies before anything else whenever a variation tuple is given; adds a
+    /// one-axis `fvar` when the font has none. No corpus font has an `rvrn` feature, so script
+    /// specific shaping never met a run that `rvrn` had already substituted in.
+    RvrnFeature { feature_index: u16 },
     /// Add `count` private tables (tags `t000`, `t001`, ... in base 36) of `len` bytes that share
     /// one buffer: a well-formed font with an unusually long table directory. Every corpus font
     /// has fewer than 32 tables; the sfnt header fields derived from the table count are 16-bit.
